@@ -36,11 +36,29 @@ def main():
         else:
             # the model cannot be built: still run the implementation-level oracle
             mod.run(chk, model_ok=False)
-    except Exception as e:  # a crash of the machinery is not a verdict; make it loud
+    except Exception as e:
+        # the machinery could not be run against this tree (harness does not build / import, an API it drives is
+        # gone, ...): the tie between model and code is not established, so the property is not shown to hold.
+        # Reported as a broken correspondence without failing input; the traceback is in the replay file.
+        import json
         import traceback
-        traceback.print_exc()
+        tb = traceback.format_exc()
+        sys.stderr.write(tb)
         print(f"CHECK-ERROR property={a.pid}: {type(e).__name__}: {e}")
-        sys.exit(2)
+        os.makedirs(os.path.join(common.ROOT, "replays"), exist_ok=True)
+        path = os.path.join(common.ROOT, "replays", f"{a.pid}-checkerror.json")
+        with open(path, "w") as f:
+            json.dump({"property": a.pid, "kind": "correspondence", "broken": ["the check could not be run against this tree"],
+                       "error": f"{type(e).__name__}: {e}", "traceback": tb[-4000:]}, f, indent=1)
+        try:
+            chk.violation("correspondence", f"the check could not be run against this tree: {type(e).__name__}: {e}",
+                          {"kind": "correspondence", "broken": ["check machinery"], "traceback": tb[-2000:]}, no_input=True)
+            sys.exit(chk.finish())
+        except SystemExit:
+            raise
+        except Exception:  # noqa: BLE001
+            print(f"VIOLATION property={a.pid} replay={path} no-failing-input-found")
+            sys.exit(1)
     sys.exit(chk.finish())
 
 
